@@ -131,16 +131,17 @@ theorem C08_generation_reads_only_the_view (cfg : Gn.Config) (p : Pj.Project) :
     Gn.generate cfg (An.analyze p) = Gn.generate cfg (KS.ofView (KS.viewOf (An.analyze p))) :=
   KS.generate_of_view cfg p
 
-/-- every component of the model's view is recorded by the hash structs of the tree this build ran against -/
+/-- every component of the model's view is recorded by the hash structs of the tree this build ran against.  The view
+    leaves out what no generator reads (`KS.generate_norm`, `KS.generate_erase`: the file of a command or event, `async`,
+    field visibility), so dropping one of *those* from the hash does not break this obligation. -/
 def viewFields : List (String × String) := [
-  ("CommandHashData", "name"), ("CommandHashData", "file_path"), ("CommandHashData", "is_async"),
-  ("CommandHashData", "parameters"), ("CommandHashData", "return_type"), ("CommandHashData", "channels"),
+  ("CommandHashData", "name"), ("CommandHashData", "parameters"), ("CommandHashData", "return_type"), ("CommandHashData", "channels"),
   ("CommandHashData", "serde_rename_all"),
   ("ParameterHashData", "name"), ("ParameterHashData", "rust_type"), ("ParameterHashData", "is_optional"),
   ("ParameterHashData", "serde_rename"),
   ("ChannelHashData", "parameter_name"), ("ChannelHashData", "message_type"),
   ("StructHashData", "name"), ("StructHashData", "is_enum"), ("StructHashData", "fields"), ("StructHashData", "serde_rename_all"),
-  ("FieldHashData", "name"), ("FieldHashData", "rust_type"), ("FieldHashData", "is_optional"), ("FieldHashData", "is_public"),
+  ("FieldHashData", "name"), ("FieldHashData", "rust_type"), ("FieldHashData", "is_optional"),
   ("FieldHashData", "serde_rename"), ("FieldHashData", "validator_attributes"),
   ("EventHashData", "event_name"), ("EventHashData", "payload_type"),
   ("ConfigHashData", "validation_library"), ("ConfigHashData", "type_mappings"),
